@@ -248,7 +248,7 @@ func c16ActsString(a []*action) string {
 
 func c16TopLevelComma(body string) bool {
 	// the --bind grammar splits key:action pairs at commas outside action arguments
-	return strings.Contains(maskActionContents(":" + body), ",")
+	return strings.Contains(maskActionContents(":"+body), ",")
 }
 
 // ---------------------------------------------------------------- response parsing
